@@ -124,7 +124,8 @@ class C09(Property):
             "ENOSPC at the raw layer must not yield silent truncation).  "
             "evaluations = loads + dumps.  Non-trivial run = trailing bytes "
             "present or a stream fault knob active; distinct = distinct "
-            "event-log digests among those.")
+            "event-log digests among those."
+            " Also generated: byte order marks, streams advanced by read/readline/next, the encoding= argument, non-pathlib PathLike, the seven pvl.new entry points (10% of default runs), no separator before a byte the strict grammar does not allow, a multi-byte character across a multiple of 8192 bytes (3%), dump targets holding unflushed text of the caller (25% of stream targets).")
     ASSUMPTIONS = [
         "CR alone is never used as a line end and labels handed to a strict "
         "parser carry no CR inside quoted strings (Python's text layer "
